@@ -402,6 +402,7 @@ func main() {
 	total := &summary{Probes: map[string]int{}, Faults: map[string]int{}, Strategies: map[string]int{}, TaskKinds: map[string]int{}}
 	sites := map[int32]bool{}
 	distinct := map[uint64]bool{}
+	distinctSw := map[uint64]bool{}
 	missing := 0
 	for k := 0; k < workers; k++ {
 		js, err := os.ReadFile(filepath.Join(outDir, fmt.Sprintf("summary-%s-w%d.json", *prop, k)))
@@ -445,6 +446,10 @@ func main() {
 		hb, _ := os.ReadFile(filepath.Join(outDir, fmt.Sprintf("hashes-%s-w%d.bin", *prop, k)))
 		for i := 0; i+8 <= len(hb); i += 8 {
 			distinct[binary.LittleEndian.Uint64(hb[i:])] = true
+		}
+		sb, _ := os.ReadFile(filepath.Join(outDir, fmt.Sprintf("switches-%s-w%d.bin", *prop, k)))
+		for i := 0; i+8 <= len(sb); i += 8 {
+			distinctSw[binary.LittleEndian.Uint64(sb[i:])] = true
 		}
 	}
 	if missing > 0 {
@@ -602,6 +607,8 @@ func main() {
 		"build_wall_s":        buildS,
 		"scheduler_decisions": total.Decisions,
 		"context_switches":    total.Switches,
+		"distinct_interleavings": len(distinctSw),
+		"distinct_interleavings_measure": "number of distinct hashes of the sequence of (task switched to, site it resumes at) over all worlds with at least two task switches",
 		"yield_steps":         total.Steps,
 		"simulated_time_s":    float64(total.SimNs) / 1e9,
 		"faults_fired":        total.Faults,
